@@ -1,8 +1,9 @@
 (* Extraction of the Adj-RIB-Out models (shared by C08, C09, C11, C12, C13). *)
 From Coq Require Import Extraction ExtrOcamlBasic List NArith.
-From BioVerif Require Import Lib.Conv Model.PathIDs Model.AdjRIBOut Model.ExportWire Model.LocView Model.Heap.
+From BioVerif Require Import Lib.Conv Model.PathIDs Model.AdjRIBOut Model.ExportWire Model.LocView Model.Heap Model.ImportReplace.
 Extraction Language OCaml.
 Extraction "aro_model.ml" conv_anchor step init interp export_with route_count
   tbl_get hkey_of path_hkey hkey_eq_dec pidm_empty new_bgp sess_wire
   change_ops view_get view_set feed_step
-  hstep hnew heap_empty read entries obj_get.
+  hstep hnew heap_empty read entries obj_get
+  replace_in establish chain_eqb.
